@@ -254,6 +254,11 @@ SEEDS = [
     "c = 0\ny = 0\ns = 0\nwhile true:\n    c = Bernoulli(1/2)\n    y = 3\n    if c == 1:\n        y = Cos(0)\n    end\n    s = y**2\nend\n",
     "c = 1\ny = 2\ns = 0\nwhile c == 1:\n    c = Bernoulli(1/2)\n    y = y + 1\n    y = Exp(0)\n    s = s + y**2\nend\n",
     "c = 0\ny = 5\ns = 0\nwhile true:\n    c = DiscreteUniform(0, 2)\n    if c == 0:\n        y = Sin(0)\n    elif c == 1:\n        y = 2\n    end\n    s = s + y**3\nend\n",
+    # a condition over a draw made LATER in the loop body (the branch sees the previous iteration's / the initial value)
+    "g = Uniform(-1, 3)\nx = 1\nwhile true:\n    if g < 0:\n        x = x + 1\n    end\n    g = Uniform(-1, 3)\nend\n",
+    "g = 1\nx = 1\nwhile true:\n    if g < 0:\n        x = x + 1\n    end\n    g = Uniform(-1, 3)\nend\n",
+    "g = Uniform(-1, 1)\nx = 1\nwhile true:\n    if g > 0:\n        x = x + g\n    end\n    g = Uniform(-1, 1)\nend\n",
+    "g = Uniform(-1, 1)\nh = 0\nx = 1\nwhile true:\n    if g > 0:\n        x = x + h\n    end\n    g = Uniform(-1, 1)\n    h = g\nend\n",
     # delayed constant chain (acyclic solver, zero-coefficient chains)
     "x = 0\ny = 0\nwhile true:\n    y = x\n    x = 1\nend\n",
     "x = 0\ny = 0\nz = 0\nwhile true:\n    z = y\n    y = x\n    x = x + 1\nend\n",
